@@ -238,9 +238,18 @@ def run_script(kind, script, wd, foreign):
     se = found.get("stderr", [None])[0]
     path = os.path.join(foreign, "job.sh")
     open(path, "w").write(script)
-    out_f = open(so, "wb") if so else subprocess.DEVNULL
+    unopenable = []
+
+    def _open(path):
+        try:
+            return open(path, "wb")
+        except OSError as e:  # the scheduler could not create the file either: the output is lost
+            unopenable.append(f"{path}: {type(e).__name__}")
+            return subprocess.DEVNULL
+
+    out_f = _open(so) if so else subprocess.DEVNULL
     if se:
-        err_f = open(se, "wb")
+        err_f = _open(se)
     elif kind == "slurm":
         err_f = subprocess.STDOUT  # Slurm: without --error, stderr goes to the --output file
     else:
@@ -252,7 +261,7 @@ def run_script(kind, script, wd, foreign):
             f.close()
     files = {f: open(os.path.join(wd, f), "rb").read() for f in sorted(os.listdir(wd))}
     stray = sorted(f for f in os.listdir(foreign) if f != "job.sh")
-    return dict(rc=p.returncode, files=files, stray=stray, so=so, se=se)
+    return dict(rc=p.returncode, files=files, stray=stray, so=so, se=se, unopenable=unopenable)
 
 
 def exec_batch(acc, batch):
@@ -286,6 +295,8 @@ def exec_batch(acc, batch):
                 got = run_script(kind, script, twd, foreign)
                 if got["files"] != ref["files"]:
                     problems.append(f"files in the working directory differ: {sorted(got['files'])} vs reference {sorted(ref['files'])} (or contents)")
+                if got["unopenable"]:
+                    problems.append(f"log file named by the script's directives cannot be created: {got['unopenable']}")
                 if got["stray"]:
                     problems.append(f"files created outside the working directory (script ran elsewhere): {got['stray']}")
                 if (got["rc"] == 0) != (ref["rc"] == 0) or (ref["rc"] != 0 and got["rc"] != ref["rc"]):
@@ -298,6 +309,8 @@ def exec_batch(acc, batch):
                 if mode == "full":
                     if got["so"] != exp_so or got["se"] != exp_se:
                         problems.append(f"log directives {got['so']!r}, {got['se']!r} expected {exp_so!r}, {exp_se!r}")
+                    elif got["unopenable"]:
+                        pass
                     else:
                         o, e = open(exp_so, "rb").read(), open(exp_se, "rb").read()
                         if o != want_out or e != want_err:
@@ -309,6 +322,8 @@ def exec_batch(acc, batch):
                 elif mode == "merged":
                     if got["so"] != exp_so or got["se"] is not None:
                         problems.append(f"merged log mode: directives {got['so']!r}, {got['se']!r}")
+                    elif got["unopenable"]:
+                        pass
                     else:
                         o = open(exp_so, "rb").read()
                         if sorted(o.splitlines()) != sorted((want_out + want_err).splitlines()):
